@@ -65,7 +65,7 @@ type c12Kind struct {
 func c12AllKinds() []c12Kind {
 	gi := int64(1) << 30
 	return []c12Kind{
-		{Name: "cfs_quota", RT: sysutil.CPUCFSQuotaName, Vals: []int64{50000, 100000, 200000, c12Inf}, NTok: 1},
+		{Name: "cfs_quota", RT: sysutil.CPUCFSQuotaName, Vals: []int64{10000, 100000, 200000, c12Inf}, NTok: 1}, // "10000" is a decimal prefix of "100000": an equality test on text prefixes takes that shrink for unchanged (seed C12-6)
 		{Name: "memory.min", RT: sysutil.MemoryMinName, Vals: []int64{0, gi, 2 * gi, c12Inf}, NTok: 2},
 		{Name: "memory.low", RT: sysutil.MemoryLowName, Vals: []int64{0, gi, 2 * gi, c12Inf}, NTok: 2},
 		{Name: "memory.high", RT: sysutil.MemoryHighName, Vals: []int64{0, gi, 2 * gi, c12Inf}, NTok: 2},
